@@ -162,6 +162,9 @@ def files_chunk(payload):
                             what = "reader returned duplicate names"
                             part["violations"].append(dict(key="C11|file|duplicate-names", what=what, replay=run.save_replay("C11", c, what)))
                     for w in r.evs("write_prob"):
+                        if w.get("rc") != 0 and any("SOS information in LP format" in str(x) for x in w.get("logs", [])):
+                            cnt["lp-writer-refuses-sos(documented)"] = cnt.get("lp-writer-refuses-sos(documented)", 0) + 1
+                            continue
                         if w.get("rc") != 0:
                             what = "a problem returned by the reader cannot be written: rc=%r %s" % (w.get("rc"), w.get("logs", [])[:3])
                             part["violations"].append(dict(key="C11|file|unwritable", what=what, replay=run.save_replay("C11", c, what)))
